@@ -13,6 +13,8 @@ Decided (for all durations and all unit subsets, by the structure of the cascade
  RF-pre-ro    the print loop never writes the precomputed components (each specifier may occur several times)
  RF-sign      exactly one minus sign is written, before the loop, from the sign of the total; all components are printed
               from non-negative values
+ RF-handshake the day borrow between date part and time part: every case of dt_ddiff that borrows a day reports it in res.fix,
+              and dt_dtdiff shifts the seconds by one day when it is set
  RF3-widen    every product of a day count with seconds-per-day (or a larger unit) is computed in 64 bits
 
 Not decided: that dt_dtdiff's value is the difference of the inputs (C05's domain), the month/year split.
@@ -374,7 +376,79 @@ def check_widen(P, R):
     R.floor(rule, "day-count products", n, 6)
 
 
+def check_handshake(P, R):
+    """the day borrow of dt_ddiff: when the time-of-day difference has the other sign than the date difference, one day is taken
+    from the date part (under a flag) and dt_dtdiff credits 86400 s to the time part if the flag comes back in res.fix.  In every
+    case of dt_ddiff that borrows, the flag must survive to the return: res.fix = flag after the last whole assignment of res."""
+    rule = "RF-handshake"
+    tu = P.tu("libdut_a-date-core.o")
+    dtu = P.tu("libdut_a-dt-core.o")
+    fn = tu.func("dt_ddiff")
+    cons = dtu.func("dt_dtdiff")
+    if fn is None or cons is None:
+        raise AnalysisBroken("dt_ddiff / dt_dtdiff vanished")
+    R.saw(fn)
+    R.saw(cons)
+    res = None
+    for x in fn.walk():
+        if x.get("k") == "Var" and "dt_ddur_s" in fn.tu.types[x["t"]].get("c", ""):
+            res = x["d"]
+    sws = list(fn.switches())
+    if res is None or not sws:
+        raise AnalysisBroken("%s: result record / duration type switch of dt_ddiff not found" % rule)
+    n = 0
+    for g in switch_cases(sws[0]):
+        names = [l["en"] for l in g["labels"] if l["en"]]
+        flat = []
+        for s_ in g["stmts"]:
+            flat += kids(s_) if s_.get("k") == "CompoundStmt" else [s_]
+        # a borrow: if (F) { operand = add_d(operand, ...) }
+        flag = None
+        for s_ in flat:
+            if s_.get("k") == "IfStmt":
+                c = strip(s_["c"][0])
+                if c is not None and c.get("k") == "DeclRefExpr" and any(
+                        y.get("k") == "CallExpr" and (y.get("callee") or "").endswith("_add_d") for y in walk(s_["c"][1])):
+                    flag = c["d"]
+                    fname = c.get("n")
+        if flag is None:
+            continue
+        n += 1
+        last_whole = -1
+        set_after = False
+        for i, s_ in enumerate(flat):
+            if s_.get("k") == "BinaryOperator" and s_.get("op") == "=":
+                l = strip(s_["c"][0])
+                if l is not None and l.get("k") == "DeclRefExpr" and l.get("d") == res:
+                    last_whole = i
+                    set_after = False
+                elif l is not None and l.get("k") == "MemberExpr" and l.get("n") == "fix":
+                    b, path = member_path(l)
+                    r = strip(s_["c"][1])
+                    if b is not None and b.get("d") == res and r is not None and r.get("k") == "DeclRefExpr" and r.get("d") == flag:
+                        set_after = i > last_whole
+        if set_after:
+            R.ob(rule, "dt_ddiff %s: the borrow flag reaches the caller in res.fix" % "/".join(names), True)
+        else:
+            R.finding(rule, fn, "case %s" % "/".join(names), "this case borrows a day under `%s` but the flag does not survive to the return "
+                      "(res is assigned as a whole afterwards and .fix is not set from it): dt_dtdiff never credits the borrowed day and "
+                      "the printed components fall one day short" % fname, g["stmts"][0] if g["stmts"] else None)
+    R.floor(rule, "borrowing cases of dt_ddiff", n, 4)
+    # consumer: the flag selects a shift by one day's seconds
+    okc = False
+    for x in cons.walk():
+        if x.get("k") == "ConditionalOperator":
+            if any(y.get("k") == "MemberExpr" and y.get("n") == "fix" for y in walk(x["c"][0])) and \
+                    sum(1 for y in walk(x) if const_of(y) == 86400) >= 2:
+                okc = True
+    if okc:
+        R.ob(rule, "dt_dtdiff credits / debits 86400 s when res.d.fix is set", True)
+    else:
+        R.finding(rule, cons, "consumer", "dt_dtdiff no longer shifts the time part by one day when the date part reports a borrow")
+
+
 def check(P, R, tier):
+    check_handshake(P, R)
     tu = P.tu("ddiff-ddiff.o")
     us, blocks = check_cascade(P, R, tu)
     check_ranges(P, R, tu, us, blocks)
